@@ -92,7 +92,9 @@ type DirectiveSpace struct {
 	Verbs    []rune
 }
 
-func (s DirectiveSpace) Size() int { return len(s.FlagSets) * len(s.Wids) * len(s.Precs) * len(s.Verbs) }
+func (s DirectiveSpace) Size() int {
+	return len(s.FlagSets) * len(s.Wids) * len(s.Precs) * len(s.Verbs)
+}
 func (s DirectiveSpace) Get(i int) Directive {
 	v := i % len(s.Verbs)
 	i /= len(s.Verbs)
